@@ -14,9 +14,12 @@ import json
 import math
 import os
 import random
+import select
 import signal
 import struct
 import sys
+import time
+import traceback
 
 sys.path.insert(0, os.path.dirname(os.path.abspath(__file__)))
 from _util import exc_class, limbs  # noqa: E402
@@ -180,26 +183,79 @@ def sqrt_mod(a, p):
 
 
 # ------------------------------------------------------------------------------------------ calling the library
-class Hang(Exception):
-    pass
+# Every case runs in a forked child (isolated): a call that does not return (RSA.construct((n, 1, 1)) loops for ever) or that kills the
+# interpreter can neither be interrupted safely from a signal handler (an exception raised inside IntegerGMP.__del__ is swallowed; one
+# raised inside a half-built object led to a segmentation fault) nor be allowed to take the recorder down.  The child writes one octet
+# when the library call has returned and then the record; the parent enforces a deadline on the call, kills the child when it passes and
+# builds the record itself with the outcome "Timeout" (or "Crash") -- which is neither a key nor a ValueError.
+PRETEND = None          # set in the parent after a child was killed / died: attempt() reports this outcome without calling the library
+PROGRESS_FD = None      # set in the child: where attempt() announces that the call has returned
+CALL_SECONDS = 6
 
 
-def attempt(fn, seconds=8):
-    """(result, "none") or (None, class).  A call that does not return within `seconds` is recorded as "Timeout" (it is neither a key
-    nor a ValueError)."""
-    def on_alarm(*a):
-        raise Hang()
-    old = signal.signal(signal.SIGALRM, on_alarm)
-    signal.alarm(seconds)
+def attempt(fn, seconds=CALL_SECONDS):
+    """(result, "none") or (None, exception class); `seconds` is read by isolated() through the function calling attempt()"""
+    if PRETEND is not None:
+        return None, PRETEND
     try:
-        return fn(), "none"
-    except Hang:
-        return None, "Timeout"
+        res = fn(), "none"
     except Exception as e:  # the class is the observation
-        return None, exc_class(e)
+        res = None, exc_class(e)
+    if PROGRESS_FD is not None:
+        os.write(PROGRESS_FD, b".")
+    return res
+
+
+def isolated(func, item, deep, call_seconds=CALL_SECONDS, total_seconds=600):
+    global PRETEND, PROGRESS_FD
+    sys.stdout.flush()
+    sys.stderr.flush()
+    r, w = os.pipe()
+    pid = os.fork()
+    if pid == 0:
+        code = 3
+        try:
+            os.close(r)
+            PROGRESS_FD = w
+            t = func(item, deep)
+            data = b"|" + json.dumps(t, separators=(",", ":")).encode()
+            while data:
+                n = os.write(w, data)
+                data = data[n:]
+            code = 0
+        except BaseException:
+            traceback.print_exc()
+        finally:
+            os._exit(code)
+    os.close(w)
+    buf, deadline, outcome = b"", time.time() + call_seconds, None
+    while True:
+        left = deadline - time.time()
+        ready = select.select([r], [], [], max(left, 0))[0] if left > 0 else []
+        if not ready:
+            outcome = "Timeout"
+            os.kill(pid, signal.SIGKILL)
+            break
+        chunk = os.read(r, 1 << 20)
+        if not chunk:
+            break
+        if not buf:
+            deadline = time.time() + total_seconds        # the call has returned (or was not made): the rest is the recorder's own work
+        buf += chunk
+    os.close(r)
+    _, status = os.waitpid(pid, 0)
+    if outcome is None:
+        if os.WIFSIGNALED(status):
+            outcome = "Crash"
+        elif os.WEXITSTATUS(status) != 0:
+            raise RuntimeError("the recorder failed in the child process on item %r" % (item,))
+        else:
+            return json.loads(buf[buf.index(b"|") + 1:].decode())
+    PRETEND = outcome
+    try:
+        return func(item, deep)
     finally:
-        signal.alarm(0)
-        signal.signal(signal.SIGALRM, old)
+        PRETEND = None
 
 
 # ------------------------------------------------------------------------------------------ DER / PEM / OpenSSH by hand
@@ -494,7 +550,7 @@ def dsa_base(kid):
 
 def other_prime(t):
     """a prime of the size of q that does not divide p - 1"""
-    c = t["q"] + 2
+    c = t["q"] + 2 if t["q"] % 2 else t["q"] + 1          # (q is even after "q:=2q")
     while not is_probable_prime(c) or (t["p"] - 1) % c == 0:
         c += 2
     return c
@@ -1318,24 +1374,31 @@ GEN_FUNCS = {"rsa": gen_rsa, "dsa": gen_dsa, "dsa-domain": gen_dsa, "elgamal": g
 
 
 # ------------------------------------------------------------------------------------------ main
-def run_cases(inp):
+def warm(item):
+    """build the base key of an item in the parent process, so that the forked children inherit it"""
+    ty = item.get("ty") or item.get("what")
+    if ty == "rsa" and "kid" in item:
+        rsa_base(item["kid"])
+    elif ty in ("dsa", "dsa-domain") and item.get("kid"):
+        dsa_base(item["kid"])
+    elif ty == "elgamal" and "kid" in item:
+        eg_base(item["kid"])
+    elif ty in ("ws", "ed", "mt"):
+        ec_base(item["kid"])
+        curve(ec_base(item["kid"])["c"])
+        if ty == "ws":
+            curve(OTHER_CURVE[ec_base(item["kid"])["c"]])
+
+
+GEN_SECONDS = {"rsa": 600, "dsa": 900, "dsa-domain": 900, "elgamal": 1500, "ecc": 60}
+
+
+def run_items(inp, funcs, key, seconds):
     out = []
     deep = bool(inp.get("deep"))
     for item in inp["items"]:
-        t = CASE_FUNCS[item["ty"]](item, bool(item.get("deep", deep)))
-        if t is None:
-            continue
-        t["cid"] = item["cid"]
-        t["tid"] = item["cid"]
-        out.append(t)
-    return out
-
-
-def run_generate(inp):
-    out = []
-    deep = bool(inp.get("deep"))
-    for item in inp["items"]:
-        t = GEN_FUNCS[item["what"]](item, bool(item.get("deep", deep)))
+        warm(item)
+        t = isolated(funcs[item[key]], item, bool(item.get("deep", deep)), seconds(item))
         if t is None:
             continue
         t["cid"] = item["cid"]
@@ -1347,7 +1410,10 @@ def run_generate(inp):
 def main():
     inp = json.load(sys.stdin)
     mode = sys.argv[1]
-    traces = run_cases(inp) if mode == "cases" else run_generate(inp)
+    if mode == "cases":
+        traces = run_items(inp, CASE_FUNCS, "ty", lambda item: CALL_SECONDS)
+    else:
+        traces = run_items(inp, GEN_FUNCS, "what", lambda item: GEN_SECONDS[item["what"]])
     json.dump(traces, sys.stdout, separators=(",", ":"))
 
 
